@@ -38,8 +38,15 @@ Definition jv_len (v : jv) : nat :=
   | _ => O
   end.
 
-(* value[i] for a list / tuple *)
-Definition seq_at (v : jv) (i : nat) : jv := nth_default JNull (seq_of v) i.
+(* value[i] for a list / tuple.  Total on purpose (JNull when out of range): in the translated code
+   (check_inventories) val[0] / val[1] are only reached after `len(val) != 2` has raised, so the IndexError
+   path of Python does not exist there; the refinement proof (inventory_entry_src) only uses it on
+   two-element lists. *)
+Definition seq_at (v : jv) (i : nat) : jv :=
+  match nth_error (seq_of v) i with Some x => x | None => JNull end.
+
+(* the str behind a value known to be a str *)
+Definition jv_str (v : jv) : str := match v with JStr s => s | _ => [] end.
 
 (* "k" in val / val["k"] for a dict with str keys *)
 Definition dict_has (k : str) (v : jv) : bool := is_some (dict_get k (dict_of v)).
